@@ -9,6 +9,7 @@ import ast
 from ..astx import walk_no_nested, dotted, call_name, self_attr, func_params, dominating_conditions, flatten_conditions, \
     parent, ancestors, terminates
 from ..core import norm, Inconclusive
+from .. import pat
 from .. import nodeshape
 
 TREE = "graphtage.tree.TreeNode"
@@ -207,8 +208,8 @@ def r18c(ctx):
     # TreeNode.copy only appends what copy_from returned
     tn = m.need_class("TreeNode")
     cp = m.method(tn, "copy")
-    t = ast.unparse(cp.node).replace(" ", "")
-    if "new_node=node.copy_from(processed_children)" in t and ".append(new_node)" in t:
+    cf = pat.first("N = X.copy_from(C)", cp.node)[1]
+    if cf is not None and bool(pat.find_expr(f"ANY.append({cf['N']})", cp.node)):
         ctx.proved("R18c", cp.file, "TreeNode.copy", cp.node, "copy protocol", "children handed to copy_from are the fresh copies")
     else:
         ctx.violation("R18c", cp.file, "TreeNode.copy", cp.node, "copy protocol",
@@ -223,7 +224,9 @@ def r18d(ctx):
     bq = m.need_class("Builder")
     bt = m.method(bq, "build_tree")
     f = bt.file
-    loops = [l for l in walk_no_nested(bt.node) if isinstance(l, ast.For) and dotted(l.iter) == "work"]
+    wk = pat.first("while W:\n    pass", bt.node)[1]
+    workv = next((dotted(x.test) for x in walk_no_nested(bt.node) if isinstance(x, ast.While) and isinstance(x.test, ast.Name)), "work")
+    loops = [l for l in walk_no_nested(bt.node) if isinstance(l, ast.For) and dotted(l.iter) == workv]
     if not loops:
         ctx.violation("R18d", f, "Builder.build_tree", bt.node, "ancestor scan",
                       "the builder no longer scans its work stack for the node being expanded: a cyclic structure is "
@@ -261,8 +264,14 @@ def r18d(ctx):
     # the guard must not be skipped: conditions that disable it other than the options
     for l in loops:
         facts = [ast.unparse(t) for t, pol in flatten_conditions(dominating_conditions(l))]
-        extra = [x for x in facts if "check_for_cycles" not in x and "grandchildren" not in x and "all_are_leaves" not in x
-                 and "unprocessed_children" not in x and "work" != x]
+        leafnames = {s_.targets[0].id for s_ in walk_no_nested(bt.node) if isinstance(s_, ast.Assign) and isinstance(s_.targets[0], ast.Name)
+                     and any(isinstance(c, ast.Call) and call_name(c) == "all" for c in ast.walk(s_.value))}
+        listnames = {s_.targets[0].id for s_ in walk_no_nested(bt.node) if isinstance(s_, ast.Assign) and isinstance(s_.targets[0], ast.Name)
+                     and isinstance(s_.value, ast.Call) and call_name(s_.value) == "list"} | \
+                    {x.id for s_ in walk_no_nested(bt.node) if isinstance(s_, ast.Assign) and isinstance(s_.targets[0], ast.Tuple)
+                     for x in s_.targets[0].elts if isinstance(x, ast.Name)}
+        extra = [x for x in facts if "check_for_cycles" not in x and x != workv
+                 and not any(nm in x for nm in leafnames | listnames)]
         if extra:
             ctx.violation("R18d", f, "Builder.build_tree", l, "guard reachable",
                           f"the ancestor scan only runs under {extra}: some cyclic shapes bypass it")
@@ -271,7 +280,7 @@ def r18d(ctx):
                        "the scan runs whenever the child has non-leaf grandchildren and cycle checking is on")
     # the leaf shortcut that skips the scan must use the same expansion as the traversal itself
     leafdefs = [s_ for s_ in walk_no_nested(bt.node) if isinstance(s_, ast.Assign) and isinstance(s_.targets[0], ast.Name)
-                and "leaves" in s_.targets[0].id]
+                and any(isinstance(c, ast.Call) and call_name(c) == "all" for c in ast.walk(s_.value))]
     for s_ in leafdefs:
         uses_expand = [c for c in ast.walk(s_.value) if isinstance(c, ast.Call) and self_attr(c.func) == "expand"]
         if uses_expand:
